@@ -249,12 +249,23 @@ def impl_channel(kind, tag, s, attrname="v"):
         el = node(tag, s)
     elif kind == "attr":
         el = node(tag, **{attrname: s})
+    elif kind == "attrx":
+        survey, q = Tiny.get()
+        try:
+            v = survey.insert_xpaths(s, q)
+        except PyXFormError as e:
+            return {"err": "pyxform", "msg": str(e)}
+        except Exception as e:  # noqa: BLE001
+            return {"err": "crash", "msg": f"{type(e).__name__}: {e}", "exc": type(e).__name__}
+        el = node(tag, **{attrname: v})
     else:
         survey, q = Tiny.get()
         try:
             text, changed = survey.insert_output_values(s, q)
         except PyXFormError as e:
             return {"err": "pyxform", "msg": str(e)}
+        except Exception as e:  # noqa: BLE001 a crash of the substitution itself
+            return {"err": "crash", "msg": f"{type(e).__name__}: {e}", "exc": type(e).__name__}
         try:
             el = node(tag, text, toParseString=changed)
         except PyXFormError as e:
@@ -277,6 +288,12 @@ def corr_case(ctx, kind, s):
         ctx.record(case, False)
         return
     ctx.count("corr:in_fragment")
+    if i.get("err") == "crash":
+        # oracle, function level: reference substitution crashed on user text (the model has no crash to mirror)
+        sig = "text-changes-outcome:indexed-repeat-multiline" if (i.get("exc") == "AttributeError" and RE_IR_MULTILINE.search(s)) else "channel-crash:other"
+        ctx.fail(Failure("text-changes-outcome", f"reference substitution crashed on {s!r}: {i['msg']}", case, signature=sig))
+        ctx.record(case, True)
+        return
     if "err" in i or m.get("err"):
         # observation level: is there an element at all?  (Which exception class a rejection uses is C17's
         # business; a crash of the re-parse is judged by the oracle just below.)
@@ -516,8 +533,8 @@ def explore(ctx, factor, bs):
         form, probes = F.gen_probe_form(rng, langs, p_ref=rng.choice([0.0, 0.35, 0.7]), plain=rng.random() < 0.05)
         check_form(ctx, form, probes)
     for _ in range(n_corr):
-        kind = rng.choice(["text", "attr", "mixed", "mixed"])
-        s = corr_string(rng) if kind == "mixed" else F.adv(rng, 7)
+        kind = rng.choice(["text", "attr", "attrx", "mixed", "mixed"])
+        s = corr_string(rng) if kind in ("mixed", "attrx") else F.adv(rng, 7)
         if rng.random() < 0.03:
             s += rng.choice(["\r", "\r\n", "\t", "\n"]) + F.adv(rng, 2)
         corr_case(ctx, kind, s)
